@@ -168,7 +168,7 @@ def translate(src, names, want, nat_sub=False):
 # scan loop or the end of the block.  The guard functions the Lean model uses (`isTail`, `tailCut`, `waits`, …) are read
 # off that tree, whatever statement shape produced it.
 # ======================================================================================================================
-CTOK = re.compile(r'\s*(?:(0[xX][0-9a-fA-F\']+|0[bB][01\']+|\d[\d\']*)([uUlLzZ]*)|([A-Za-z_][A-Za-z_0-9]*)|'
+CTOK = re.compile(r'\s*(?:(0[xX][0-9a-fA-F\']+|0[bB][01\']+|\d[\d\']*)([uUlLzZ]*)|([A-Za-z_][A-Za-z_0-9]*)|("(?:[^"\\\n]|\\.)*")|'
                   r'(::|->|\+\+|--|<<=|>>=|<<|>>|<=|>=|==|!=|&&|\|\||\+=|-=|\*=|/=|%=|&=|\|=|\^=|[-+*/%&|^~!<>=?:;,.(){}\[\]]))')
 
 
@@ -190,8 +190,10 @@ def c_tokens(src):
             out.append(('num', v))
         elif m.group(3):
             out.append(('id', m.group(3)))
+        elif m.group(4):
+            out.append(('str', m.group(4)))
         else:
-            out.append(('op', m.group(4)))
+            out.append(('op', m.group(5)))
     return out
 
 
@@ -491,6 +493,11 @@ class CParser:
         if k == 'num':
             self.i += 1
             return ('num', v)
+        if k == 'str':
+            self.i += 1
+            while self.peek()[0] == 'str':       # adjacent literals concatenate
+                self.i += 1
+            return ('strlit', v)
         if k == 'op' and v == '(':
             self.i += 1
             e = self.expr()
@@ -544,6 +551,14 @@ def c_function(src, name, cls=None):
         if src.startswith('const', k):
             k += 5
             while k < len(src) and src[k] in ' \t\r\n':
+                k += 1
+        if k < len(src) and src[k] == ':' and not src.startswith('::', k):
+            # constructor: skip the member initialiser list
+            depth = 0
+            while k < len(src) and not (src[k] == '{' and depth == 0 and src[k - 1] not in '=,(' ):
+                depth += {'(': 1, ')': -1}.get(src[k], 0)
+                if src[k] == ';':
+                    break
                 k += 1
         if k >= len(src) or src[k] != '{':
             continue
@@ -1224,9 +1239,11 @@ def analyse_key(src, fname='key'):
     if not (call(e, '_mm_extract_epi64', 2) and e[2][1] == ('num', 0)):
         raise Untranslatable('key: result is not the low 64 bits of a vector')
     parts = xors(e[2][0])
-    if len(parts) != 3 or ('id', 'k1') not in parts:
+    ids = [x for x in parts if x[0] == 'id']
+    if len(parts) != 3 or len(ids) != 1:
         raise Untranslatable('key: not k1 ^ u ^ v')
-    parts.remove(('id', 'k1'))
+    k1 = ids[0]
+    parts.remove(k1)
 
     def load(x):
         if call(x, '_mm_loadu_si64', 1):
@@ -1241,7 +1258,37 @@ def analyse_key(src, fname='key'):
                     return i[3][1]
         return None
     for v, u in (parts, parts[::-1]):
-        if call(v, '_mm_clmulepi64_si128', 3) and v[2][0] == ('id', 'params') and v[2][2] == ('num', 0) and load(v[2][1]) is not None \
-                and call(u, '_mm_clmulepi64_si128', 3) and u[2][0] == ('id', 'params') and u[2][1] == v and u[2][2] == ('num', 0x11):
-            return {'back': load(v[2][1])}
+        if call(v, '_mm_clmulepi64_si128', 3) and v[2][0][0] == 'id' and v[2][2] == ('num', 0) and load(v[2][1]) is not None \
+                and call(u, '_mm_clmulepi64_si128', 3) and u[2][0] == v[2][0] and u[2][1] == v and u[2][2] == ('num', 0x11) \
+                and v[2][0] != k1:
+            return {'back': load(v[2][1]), 'params': v[2][0][1], 'k1': k1[1]}
     raise Untranslatable('key: not the two carry-less multiplications of the modelled reduction')
+
+
+def analyse_ctor(src, params='params', k1='k1'):
+    """the constant of the reduction step, from the constructor: at its end <params> = _mm_set_epi64x(C, low 64 bits of the key)
+    and <k1> = the key shifted right by 8 bytes"""
+    try:
+        fn = c_function(src, 'gclmulchunker')
+        if fn is None:
+            raise Untranslatable('constructor not found')
+        prm, body = fn
+        if len(prm) != 3 or None in prm:
+            raise Untranslatable('constructor: expected (min, max, key)')
+        t = CExec().run(body, {})
+    except Untranslatable as e:
+        raise Untranslatable(f'parse: {e}')
+    falls = [l for l in tree_leaves(t) if l[0] == 'fall']
+    if len(falls) != 1 or any(l[0] not in ('fall', 'throw') for l in tree_leaves(t)):
+        raise Untranslatable('constructor: not one normal way out')
+    env = falls[0][1]
+    P, K = env.get(params), env.get(k1)
+
+    def call(x, name, n):
+        return x is not None and x[0] == 'call' and x[1] == ('id', name) and len(x[2]) == n
+    if not (call(P, '_mm_set_epi64x', 2) and P[2][0][0] == 'num' and call(P[2][1], '_mm_extract_epi64', 2) and P[2][1][2][1] == ('num', 0)):
+        raise Untranslatable('constructor: params is not set_epi64x(constant, low half of the key)')
+    whole = P[2][1][2][0]
+    if not (call(whole, '_mm_loadu_si128', 1) and call(K, '_mm_bsrli_si128', 2) and K[2][0] == whole and K[2][1] == ('num', 8)):
+        raise Untranslatable('constructor: k1 is not the high half of the key')
+    return P[2][0][1]
